@@ -27,9 +27,10 @@ def stepFs (cmd : String) (args : List String) : String :=
         | "bolt" =>
           let sb := match s with | "good" => some Blob.good | "missing" => some Blob.missing | "bad" => some Blob.bad | _ => none
           let ic := match i with | "good" => some Counter.good | "missing" => some Counter.missing | "short" => some Counter.malformed | "long" => some Counter.malformed | _ => none
-          -- a removed bitmap is not an undecodable one: preloading skips it, on-demand reads treat it as empty
+          -- a removed bitmap is not an undecodable one (preloading skips it, on-demand reads treat it as empty);
+          -- garbage, a zero-length value and a truncated value are undecodable
           match sb, ic with
-          | some sb, some ic => some (.bolt (bucket == "true") sb ic (v != "bad"))
+          | some sb, some ic => some (.bolt (bucket == "true") sb ic (v == "good" || v == "missing"))
           | _, _ => none
         | _ => none
       match fs with
